@@ -12,7 +12,7 @@ RC=$?
 git checkout -q -- . && git clean -fdq -e target
 [ $RC -eq 0 ] || { echo "SUITE FAILS with $P/$V"; exit 1; }
 ID=""
-for L in h i j k l m n o p q r s t u v w x y z; do
+for L in h i j k l m n o p q r s t u v w x y z aa ab ac ad ae af ag ah ai aj ak al; do
   if mkdir /verif/seeded/N-$L 2>/dev/null; then ID=N-$L; break; fi
 done
 cp $OUT/patch.diff $OUT/notes.md /verif/seeded/$ID/
